@@ -45,6 +45,8 @@ def run(ctx):
     containment_test(ctx, crate)
     from rules.c08 import consume_tests
     consume_tests(ctx, crate)
+    from rules.c08 import helper_loops_advance
+    helper_loops_advance(ctx, crate)
     from rules import c07_goup
     c07_goup.run(ctx, crate)
     from rules.c15 import pack_rule
